@@ -42,7 +42,9 @@ Warm == << <<>>,
            <<Ix(1, 1), Un(1), Cl>>,                          \* a shard in the trash
            <<Ix(1, 1), Ix(2, 1), Mg, Ix(1, 2), Vc(0)>>,      \* a compound shard with one member
            <<Ix(1, 1), Ix(2, 1)>>,                           \* two simple shards
-           <<Ix(1, 1), Un(1), Cl, As(1), Ix(1, 2)>> >>       \* an old copy in the trash, a new one indexed
+           <<Ix(1, 1), Un(1), Cl, As(1), Ix(1, 2)>>,         \* an old copy in the trash, a new one indexed
+           \* an old copy tombstoned in a compound shard, the new one in the trash for more than a day
+           <<Ix(1, 1), Ix(2, 1), Mg, Ix(2, 2), Un(2), Cl, Tk, As(2)>> >>
 
 RECURSIVE Run(_, _)
 \* states after each operation of ops, starting in s (first choice where an operation has several results)
